@@ -42,8 +42,16 @@ class Series:
 
 
 class Mask:
+    """Conjunction of atomic row conditions on one frame."""
+
     def __init__(self, frame, cond):
-        self.frame, self.cond = frame, cond
+        self.frame = frame
+        self.conds = frozenset([cond]) if isinstance(cond, str) \
+            else frozenset(cond)
+
+    @property
+    def cond(self):
+        return ' & '.join(sorted(self.conds))
 
 
 class Row:
@@ -79,7 +87,7 @@ def ev(n, env):
         a, b = ev(n.left, env), ev(n.right, env)
         if isinstance(a, Mask) and isinstance(b, Mask) and \
                 a.frame.key() == b.frame.key():
-            return Mask(a.frame, a.cond + ' & ' + b.cond)
+            return Mask(a.frame, a.conds | b.conds)
         return None
     if isinstance(n, ast.Call) and isinstance(n.func, ast.Attribute):
         v = ev(n.func.value, env)
@@ -120,7 +128,7 @@ def ev(n, env):
             mm = ev(m, env)
             if isinstance(mm, Mask):
                 f = Frame(v[1].src, v[1].filters | mm.frame.filters
-                          | {mm.cond}, v[1].cols)
+                          | mm.conds, v[1].cols)
                 return Series(f, U(c))
             return None
         if isinstance(v, Frame):
@@ -129,7 +137,7 @@ def ev(n, env):
                              tuple(U(e) for e in n.slice.elts))
             k = ev(n.slice, env)
             if isinstance(k, Mask):
-                return Frame(v.src, v.filters | k.frame.filters | {k.cond},
+                return Frame(v.src, v.filters | k.frame.filters | k.conds,
                              v.cols)
             if isinstance(n.slice, (ast.Name, ast.Attribute, ast.Constant)):
                 return Series(v, U(n.slice))
@@ -138,7 +146,7 @@ def ev(n, env):
             k = ev(n.slice, env)
             if isinstance(k, Mask):
                 return Series(Frame(v.frame.src, v.frame.filters
-                                    | k.frame.filters | {k.cond},
+                                    | k.frame.filters | k.conds,
                                     v.frame.cols), v.col, v.extra)
             return None
         if isinstance(v, Row):
